@@ -56,6 +56,7 @@ structure Acc where
   fdCloses : Nat := 0
   slotFrees : Nat := 0
   epollDels : Nat := 0
+  epollAdds : Nat := 0
   closedSeen : Bool := false
   userClosed : Bool := false
   detachWon : Bool := false
@@ -117,7 +118,9 @@ def feed (cfg : Cfg) (a : Acc) : Ev → Acc
   | .slotFree =>
       let a1 := if a.slotFrees ≥ 1 then a.fail "C05 poller slot freed twice" else a
       { a1 with slotFrees := a.slotFrees + 1 }
-  | .epollAdd => if cfg.server ∧ !a.prepEnded then a.fail "C09 registered with the poller before OnPrepare returned" else a
+  | .epollAdd =>
+      let a1 := if cfg.server ∧ !a.prepEnded then a.fail "C09 registered with the poller before OnPrepare returned" else a
+      { a1 with epollAdds := a.epollAdds + 1 }
   | .epollDel =>
       let a1 := if a.epollDels ≥ 1 then a.fail "C05 poller registration removed twice" else a
       { a1 with epollDels := a.epollDels + 1 }
@@ -143,6 +146,9 @@ def finish (cfg : Cfg) (a : Acc) (sm : Summary) : Acc :=
     let a1 := if owed ∧ !ran then a.fail "C05 connection closed but the close callbacks did not run exactly once" else a
     let a2 := if owed ∧ a.slotFrees ≠ 1 then a1.fail "C05 connection closed but the poller slot was not freed exactly once" else a1
     let a3 := if owed ∧ !a.detachCalled ∧ a.fdCloses ≠ 1 then a2.fail "C05 connection closed but the descriptor was not closed exactly once" else a2
+    -- a connection that was registered with the poller and has been torn down has been deregistered exactly once
+    -- (closing the descriptor alone does not do it for a detached connection, whose descriptor stays open)
+    let a3 := if owed ∧ a.epollAdds ≥ 1 ∧ a.epollDels ≠ 1 then a3.fail "C05 connection closed but its poller registration was not released exactly once" else a3
     let a4 := if sm.closing = 0 ∧ sm.unread > 0 ∧ hasOR ∧ a.hActive = 0 ∧ !(cfg.hasOC ∧ a.ocEnds = 0)
               then a3.fail s!"C06 {sm.unread} bytes buffered at quiescence with a handler set, nobody processing" else a3
     let a5 := if a.hupWon ∧ cfg.hasOD ∧ (!cfg.hasOC ∨ a.ocEnds > 0) ∧ a.odRuns ≠ 1
